@@ -12,6 +12,7 @@ boolean arguments and data-dependent tests makes every test fold: exactly one pa
 from __future__ import annotations
 
 import ast
+import functools
 import datetime
 import math
 import operator
@@ -38,14 +39,20 @@ class Conc(V):
 
 
 class Abs(V):
-    __slots__ = ("k", "deps", "sym", "cap", "sign")
+    __slots__ = ("k", "deps", "sym", "cap", "sign", "neg", "lb", "ub")
 
-    def __init__(self, k, deps=frozenset(), sym=None, cap=None, sign=None):
+    def __init__(self, k, deps=frozenset(), sym=None, cap=None, sign=None, neg=frozenset(), lb=None, ub=None):
+        # numeric bounds (non-strict), None = unknown; a lower bound >= 0 implies the sign
+        self.lb, self.ub = lb, ub
+        if sign is None and lb is not None and lb >= 0:
+            sign = "pos" if lb > 0 else "nonneg"
         self.k = frozenset(k)
         self.deps = frozenset(deps)
         self.sym = sym
         self.cap = cap  # ('min'|'max', symarg, deps of the other operand)
         self.sign = sign  # None | 'pos' (> 0) | 'nonneg' (>= 0)
+        # where non-negativity was lost, when sign is None: {(kind, line, module, text)}; empty = unknown origin
+        self.neg = frozenset(neg) if sign is None else frozenset()
 
     def __repr__(self):
         s = f"Abs({sorted(self.k)}"
@@ -133,8 +140,60 @@ def sign_of(av):
             return None
         return None
     if isinstance(av, Abs):
+        if av.sign is None and av.k and av.k <= {"bool"}:
+            return "nonneg"
         return av.sign
     return None
+
+
+def lb_of(av):
+    a = alts(av)
+    if a is not None:
+        try:
+            vals = [float(x) for x in a if not isinstance(x, V)]
+            return min(vals) if vals and len(vals) == len(a) and not any(math.isnan(x) for x in vals) else None
+        except Exception:  # noqa: BLE001
+            return None
+    if isinstance(av, Abs):
+        if av.lb is not None:
+            return av.lb
+        return 0.0 if sign_of(av) else None
+    return None
+
+
+def ub_of(av):
+    a = alts(av)
+    if a is not None:
+        try:
+            vals = [float(x) for x in a if not isinstance(x, V)]
+            return max(vals) if vals and len(vals) == len(a) and not any(math.isnan(x) for x in vals) else None
+        except Exception:  # noqa: BLE001
+            return None
+    if isinstance(av, Abs):
+        if av.ub is not None:
+            return av.ub
+        return 1.0 if av.k and av.k <= {"bool"} else None
+    return None
+
+
+def _both(f, x, y):
+    return f(x, y) if x is not None and y is not None else None
+
+
+def neg_of(av):
+    """origins of a possibly negative value (empty when the sign is known or the origin is not)"""
+    if sign_of(av) is not None:
+        return frozenset()
+    if isinstance(av, Abs):
+        return av.neg
+    a = alts(av)
+    if a is not None:
+        try:
+            if any(float(x) < 0 for x in a if not isinstance(x, V)):
+                return frozenset({("negative-constant", 0, "", str([x for x in a if not isinstance(x, V)][:4]))})
+        except Exception:  # noqa: BLE001
+            pass
+    return frozenset()
 
 
 def _sign_join(a, b):
@@ -205,9 +264,11 @@ def join(a, b):
     if isinstance(a, AList) and isinstance(b, AList) and len(a.elems) == len(b.elems):
         return AList([join(x, y) for x, y in zip(a.elems, b.elems)])
     sg = _sign_join(sign_of(a), sign_of(b))
+    ng = neg_of(a) | neg_of(b)
+    lb, ub = _both(min, lb_of(a), lb_of(b)), _both(max, ub_of(a), ub_of(b))
     if isinstance(a, Abs) and isinstance(b, Abs) and a.sym and a.sym == b.sym:
-        return Abs(a.k | b.k, a.deps | b.deps, sym=a.sym, sign=sg)
-    return Abs(kinds(a) | kinds(b), a.deps | b.deps, sign=sg)
+        return Abs(a.k | b.k, a.deps | b.deps, sym=a.sym, sign=sg, neg=ng, lb=lb, ub=ub)
+    return Abs(kinds(a) | kinds(b), a.deps | b.deps, sign=sg, neg=ng, lb=lb, ub=ub)
 
 
 def _minmax_abs(fname, src, deps):
@@ -229,7 +290,107 @@ def _minmax_abs(fname, src, deps):
         sg = "pos" if all(x == "pos" for x in sgs) else ("nonneg" if all(x in ("pos", "nonneg") for x in sgs) else None)
     else:
         sg = "pos" if "pos" in sgs else ("nonneg" if "nonneg" in sgs else None)
-    return Abs(ks, deps, cap=cap, sign=sg)
+    lbs, ubs = [lb_of(x) for x in src], [ub_of(x) for x in src]
+    if fname == "min":
+        lb = min(lbs) if src and all(x is not None for x in lbs) else None
+        ub = min([x for x in ubs if x is not None], default=None)
+    else:
+        lb = max([x for x in lbs if x is not None], default=None)
+        ub = max(ubs) if src and all(x is not None for x in ubs) else None
+    ng = frozenset()
+    if sg is None and not (lb is not None and lb >= 0):
+        for x in src:
+            ng |= neg_of(x)
+    return Abs(ks, deps, cap=cap, sign=sg, neg=ng, lb=lb, ub=ub)
+
+
+def bounds_binop(op, a, b):
+    """interval arithmetic on (lb, ub); None = unbounded / unknown"""
+    la, ua, lb_, ub_ = lb_of(a), ub_of(a), lb_of(b), ub_of(b)
+    if isinstance(op, ast.Add):
+        return _both(operator.add, la, lb_), _both(operator.add, ua, ub_)
+    if isinstance(op, ast.Sub):
+        return _both(operator.sub, la, ub_), _both(operator.sub, ua, lb_)
+    if isinstance(op, ast.Mult):
+        if la is not None and lb_ is not None and la >= 0 and lb_ >= 0:
+            return la * lb_, _both(operator.mul, ua, ub_)
+        return None, None
+    if isinstance(op, ast.Div):
+        if la is not None and lb_ is not None and la >= 0 and lb_ >= 0:
+            lo = la / ub_ if ub_ is not None and ub_ > 0 and not math.isinf(ub_) else 0.0
+            hi = ua / lb_ if ua is not None and lb_ > 0 else None
+            return lo, hi
+        return None, None
+    return None, None
+
+
+@functools.lru_cache(maxsize=4096)
+def _guard_facts(txt, positive):
+    """comparison facts (left text, op type, right text) that hold when the guard `txt` has the given truth value"""
+    facts = []
+
+    def add(t, pol):
+        if isinstance(t, ast.BoolOp):
+            if (isinstance(t.op, ast.And) and pol) or (isinstance(t.op, ast.Or) and not pol):
+                for v in t.values:
+                    add(v, pol)
+            return
+        if isinstance(t, ast.UnaryOp) and isinstance(t.op, ast.Not):
+            add(t.operand, not pol)
+            return
+        if isinstance(t, ast.Compare) and len(t.ops) == 1:
+            o = type(t.ops[0])
+            if not pol:
+                o = {ast.Lt: ast.GtE, ast.LtE: ast.Gt, ast.Gt: ast.LtE, ast.GtE: ast.Lt, ast.Eq: ast.NotEq, ast.NotEq: ast.Eq}.get(o)
+            if o is not None:
+                facts.append((ast.unparse(t.left), o, ast.unparse(t.comparators[0])))
+
+    try:
+        add(ast.parse(txt, mode="eval").body, positive)
+    except SyntaxError:
+        pass
+    return tuple(facts)
+
+
+def guard_orders(guards, lt, rt):
+    """'pos' if the path guards imply lt > rt, 'nonneg' if they imply lt >= rt, else None.  Guards are
+    (polarity, test text, deps); conjunctions under '+' and disjunctions under '-' are split."""
+    facts = []
+
+    def add(t, pol):
+        if isinstance(t, ast.BoolOp):
+            if (isinstance(t.op, ast.And) and pol) or (isinstance(t.op, ast.Or) and not pol):
+                for v in t.values:
+                    add(v, pol)
+            return
+        if isinstance(t, ast.UnaryOp) and isinstance(t.op, ast.Not):
+            add(t.operand, not pol)
+            return
+        if isinstance(t, ast.Compare) and len(t.ops) == 1:
+            facts.append((ast.unparse(t.left), type(t.ops[0]), ast.unparse(t.comparators[0]), pol))
+
+    for gd in guards:
+        try:
+            add(ast.parse(gd[1], mode="eval").body, gd[0] == "+")
+        except SyntaxError:
+            continue
+    best = None
+    for l_, op, r_, pol in facts:
+        if (l_, r_) == (lt, rt):
+            o = op
+        elif (l_, r_) == (rt, lt):
+            o = {ast.Lt: ast.Gt, ast.LtE: ast.GtE, ast.Gt: ast.Lt, ast.GtE: ast.LtE}.get(op)
+        else:
+            continue
+        if o is None:
+            continue
+        if not pol:
+            o = {ast.Lt: ast.GtE, ast.LtE: ast.Gt, ast.Gt: ast.LtE, ast.GtE: ast.Lt}.get(o)
+        if o is ast.Gt:
+            return "pos"
+        if o is ast.GtE:
+            best = "nonneg"
+    return best
 
 
 def _same_value(x, y):
@@ -310,6 +471,58 @@ def pw_eval(x, thresholds, rates, intercepts, rates_multiplier=None):
     return float(out)
 
 
+def pw_nonneg(thresholds, rates, intercepts, x_nonneg, multiplier_sign=None):
+    """is the piecewise polynomial >= 0 for every x (x >= 0 if x_nonneg)?  Exact on each piece: a polynomial of
+    degree <= 2 attains its minimum over an interval at an end point or at its vertex; higher degrees are
+    accepted only when every coefficient is non-negative."""
+    th = [float(t) for t in thresholds]
+    R = numpy.asarray(rates, dtype=float)
+    deg = R.shape[0]
+    n = len(th) - 1
+    if multiplier_sign is not None:
+        # intercepts are rebuilt from intercepts[0] and the scaled rates: non-negative coefficients needed
+        return multiplier_sign in ("pos", "nonneg") and float(intercepts[0]) >= 0 and bool((R[:, : n] >= 0).all())
+    for b in range(n):
+        lo, hi = th[b], th[b + 1]
+        if x_nonneg and hi <= 0:
+            continue
+        c0 = float(intercepts[b])
+        cs = [R[p][b] if b > 0 else 0.0 for p in range(deg)]  # the lowest piece is constant
+        if b == 0 and any(R[p][0] != 0 for p in range(deg)):
+            return False
+        start = max(lo, 0.0) if x_nonneg else lo
+        if math.isinf(start):
+            if any(c != 0 for c in cs):
+                return False
+            if c0 < 0:
+                return False
+            continue
+
+        def val(x):
+            inc = x - lo
+            return c0 + sum(cs[p] * inc ** (p + 1) for p in range(deg))
+
+        pts = [start]
+        if not math.isinf(hi):
+            pts.append(hi)
+        elif deg <= 2:
+            # behaviour at +inf is decided by the leading non-zero coefficient
+            lead = next((c for c in reversed(cs) if c != 0), 0.0)
+            if lead < 0:
+                return False
+        if deg <= 2:
+            if deg == 2 and cs[1] != 0:
+                v = lo - cs[0] / (2 * cs[1])
+                if start < v < hi:
+                    pts.append(v)
+            if any(val(x) < -1e-9 for x in pts):
+                return False
+        else:
+            if c0 < 0 or any(c < 0 for c in cs):
+                return False
+    return True
+
+
 class Bail(Exception):
     """construct outside the modelled language"""
 
@@ -327,6 +540,9 @@ class Interp:
         self.allow_store = allow_store
         self.unhandled: list[str] = []
         self.modstack = [mod]
+        self.gbase: list[int] = []
+        self.defstack: list[dict] = []
+        self.rematerialising = 0
         self.rets = []
 
     # ------------------------------------------------------------------ helpers
@@ -366,6 +582,58 @@ class Interp:
             return Abs({"obj"})
         return m(n, env, g)
 
+    def refine(self, name, v, env, g):
+        """narrow the bounds of a numeric name by the path guards that compare it with a concrete number
+        (a constant, or a name / parameter path bound to concrete numbers in the current environment)"""
+        lb, ub = lb_of(v), ub_of(v)
+        lb0, ub0 = lb, ub
+        strict_pos = False
+
+        def number(txt):
+            try:
+                e = ast.parse(txt, mode="eval").body
+            except SyntaxError:
+                return None
+            if isinstance(e, ast.Constant) and isinstance(e.value, (int, float)) and not isinstance(e.value, bool):
+                return float(e.value), float(e.value)
+            if isinstance(e, ast.Name) and e.id != name and e.id in env:
+                w = env[e.id]
+                lo, hi = lb_of(w), ub_of(w)
+                if alts(w) is not None and lo is not None:
+                    return lo, hi
+            return None
+
+        for gd in g:
+            for l_, o, r_ in _guard_facts(gd[1], gd[0] == "+"):
+                if l_ == name:
+                    other = number(r_)
+                elif r_ == name:
+                    other = number(l_)
+                    o = {ast.Lt: ast.Gt, ast.LtE: ast.GtE, ast.Gt: ast.Lt, ast.GtE: ast.LtE}.get(o, o)
+                else:
+                    continue
+                if other is None:
+                    continue
+                lo, hi = other
+                if o in (ast.Gt, ast.GtE):
+                    lb = lo if lb is None else max(lb, lo)
+                    if o is ast.Gt and lo >= 0:
+                        strict_pos = True
+                elif o in (ast.Lt, ast.LtE):
+                    ub = hi if ub is None else min(ub, hi)
+                elif o is ast.Eq:
+                    lb = lo if lb is None else max(lb, lo)
+                    ub = hi if ub is None else min(ub, hi)
+        if (lb, ub) == (lb0, ub0) and not strict_pos:
+            return v
+        # integers: x > c means x >= c + 1 is not assumed (columns may be floats)
+        sg = v.sign
+        if strict_pos or (lb is not None and lb > 0):
+            sg = "pos"
+        elif sg is None and lb is not None and lb >= 0:
+            sg = "nonneg"
+        return Abs(v.k, v.deps, sym=v.sym, cap=v.cap, sign=sg, neg=v.neg, lb=lb, ub=ub)
+
     def ev_Constant(self, n, env, g):
         return Conc(n.value)
 
@@ -374,7 +642,29 @@ class Interp:
             v = env[n.id]
             if isinstance(v, Abs) and "unbound" in v.k:
                 self.E("maybe-unbound", n, n.id, guards=g)
-                return Abs(v.k - {"unbound"}, v.deps)
+                v = Abs(v.k - {"unbound"}, v.deps, sign=v.sign, neg=v.neg, lb=v.lb, ub=v.ub)
+            gl = g[self.gbase[-1]:] if self.gbase else g
+            if gl and isinstance(v, Abs) and v.k <= NUM | {"bool"}:
+                if self.defstack and n.id in self.defstack[-1] and self.rematerialising < 4:
+                    # a single-assignment local: its defining expression, re-read under the guards of this use
+                    self.rematerialising += 1
+                    ev_save, self.events = self.events, []
+                    try:
+                        w = self.ev(self.defstack[-1][n.id], env, g)
+                    except Exception:  # noqa: BLE001
+                        w = None
+                    finally:
+                        self.events = ev_save
+                        self.rematerialising -= 1
+                    if isinstance(w, (Abs, OneOf, Conc)) and kinds(w) <= NUM:
+                        rk = {None: 0, "nonneg": 1, "pos": 2}
+                        lw, lv, uw, uv = lb_of(w), lb_of(v), ub_of(w), ub_of(v)
+                        sg = sign_of(w) if rk[sign_of(w)] > rk[sign_of(v)] else sign_of(v)
+                        lb = lw if lv is None or (lw is not None and lw > lv) else lv
+                        ub = uw if uv is None or (uw is not None and uw < uv) else uv
+                        if (sg, lb, ub) != (sign_of(v), lv, uv):
+                            v = Abs(v.k, v.deps, sym=v.sym, cap=v.cap, sign=sg, neg=v.neg, lb=lb, ub=ub)
+                v = self.refine(n.id, v, env, gl)
             return v
         mod = self.modstack[-1]
         if n.id in mod.assigns:
@@ -526,7 +816,47 @@ class Interp:
             self.E("none-arith", n, ast.unparse(n), guards=g)
         if ka <= {"seq", "array"} or kb <= {"seq", "array"}:
             return Abs({"seq"}, deps)
-        return Abs(arith_kinds(op, ka, kb, b), deps, sign=sign_binop(op, a, b))
+        lb, ub = bounds_binop(op, a, b)
+        if isinstance(op, ast.Div) and isinstance(n, ast.BinOp) and isinstance(n.right, ast.BinOp) and isinstance(n.right.op, ast.Add) \
+                and ast.unparse(n.left) in (ast.unparse(n.right.left), ast.unparse(n.right.right)) and sign_of(a) and sign_of(b):
+            ub = 1.0 if ub is None else min(ub, 1.0)  # a share x / (x + y) of non-negative parts
+        if lb is not None and lb >= 0:
+            sg, ng = ("pos" if lb > 0 else "nonneg"), frozenset()
+            s2, _ = self.sign_binop(n, op, a, b, g, quiet=True)
+            if s2 == "pos":
+                sg = "pos"
+        else:
+            sg, ng = self.sign_binop(n, op, a, b, g)
+        return Abs(arith_kinds(op, ka, kb, b), deps, sign=sg, neg=ng, lb=lb, ub=ub)
+
+    def sign_binop(self, n, op, a, b, g, quiet=False):
+        """(sign, origins) of an arithmetic result.  A difference is non-negative only under a dominating guard
+        that orders its operands (`if a > b: ... a - b`)."""
+        sa, sb = sign_of(a), sign_of(b)
+        if sa is None or sb is None:
+            # `x - y` with y possibly negative etc.: propagate the operand origins
+            return None, neg_of(a) | neg_of(b)
+        if isinstance(op, ast.Add):
+            return ("pos" if "pos" in (sa, sb) else "nonneg"), frozenset()
+        if isinstance(op, ast.Mult):
+            return ("pos" if sa == sb == "pos" else "nonneg"), frozenset()
+        if isinstance(op, ast.Div):
+            # a zero denominator is an error (rule Z), not a negative value
+            return ("pos" if sa == sb == "pos" else "nonneg"), frozenset()
+        if isinstance(op, (ast.FloorDiv, ast.Mod)):
+            return "nonneg", frozenset()
+        if isinstance(op, ast.Pow):
+            return ("pos" if sa == "pos" else "nonneg"), frozenset()
+        if isinstance(op, ast.Sub):
+            bb = alts(b)
+            if bb is not None and all(not isinstance(x, V) and x == 0 for x in bb):
+                return sa, frozenset()
+            if isinstance(n, ast.BinOp):
+                rel = guard_orders(g[self.gbase[-1]:] if self.gbase else g, ast.unparse(n.left), ast.unparse(n.right))
+                if rel:
+                    return rel, frozenset()
+            return None, frozenset({("difference", getattr(n, "lineno", 0), self.modstack[-1].rel, ast.unparse(n)[:120])})
+        return None, frozenset({("operator", getattr(n, "lineno", 0), self.modstack[-1].rel, ast.unparse(n)[:120])})
 
     def ev_UnaryOp(self, n, env, g):
         a = self.ev(n.operand, env, g)
@@ -542,7 +872,8 @@ class Interp:
                 return mk_oneof([f(x) for x in aa], a.deps)
             except Exception:  # noqa: BLE001
                 pass
-        return Abs({("int" if k == "bool" else k) for k in kinds(a)}, a.deps)
+        ng = frozenset({("negation", getattr(n, "lineno", 0), self.modstack[-1].rel, ast.unparse(n)[:120])}) if isinstance(n.op, ast.USub) else neg_of(a)
+        return Abs({("int" if k == "bool" else k) for k in kinds(a)}, a.deps, sign=sign_of(a) if isinstance(n.op, ast.UAdd) else None, neg=ng)
 
     def ev_Compare(self, n, env, g):
         vals = [self.ev(n.left, env, g)] + [self.ev(c, env, g) for c in n.comparators]
@@ -819,19 +1150,24 @@ class Interp:
                         return Conc(float(getattr(numpy, attr)(*[a.v for a in args])))
                     except Exception:  # noqa: BLE001
                         pass
-                return Abs({"float"}, deps)
+                sg0 = sign_of(args[0]) if args else None
+                if attr == "exp":
+                    sg0 = "pos"
+                elif attr == "log":
+                    sg0 = None
+                elif sg0:
+                    sg0 = "nonneg"  # ceil / floor / round / sqrt of a non-negative number
+                return Abs({"float"}, deps, sign=sg0, neg=neg_of(args[0]) if args and attr != "log" else frozenset())
             if fname in ("math.ceil", "math.floor", "math.trunc"):
                 if allc:
                     try:
                         return Conc(getattr(math, attr)(*[a.v for a in args]))
                     except Exception:  # noqa: BLE001
                         pass
-                return Abs({"int"}, deps)
+                return Abs({"int"}, deps, sign="nonneg" if args and sign_of(args[0]) else None, neg=neg_of(args[0]) if args else frozenset())
             if fname in ("numpy.minimum", "numpy.maximum", "np.minimum", "np.maximum"):
-                r = None
-                for a in args:
-                    r = join(r, a)
-                return Abs(kinds(r), deps)
+                mm = _minmax_abs("min" if attr == "minimum" else "max", list(args), deps)
+                return Abs(mm.k, deps, sign=mm.sign, neg=mm.neg)
             if fname in ("numpy.datetime64", "np.datetime64"):
                 return Abs({"date"}, deps)
             if fname in ("numpy.timedelta64", "np.timedelta64", "datetime.timedelta"):
@@ -918,7 +1254,13 @@ class Interp:
                 ks |= set(kinds(s))
             if not ks <= NUM:
                 return Abs({"obj"}, deps)
-            return Abs({"float"} if "float" in ks and ks <= {"float"} else ({"int"} if "float" not in ks else {"float"}), deps) if src else Conc(0)
+            sgs = [sign_of(x) for x in src]
+            sg = "nonneg" if all(x in ("pos", "nonneg") for x in sgs) else None
+            ng = frozenset()
+            if sg is None:
+                for x in src:
+                    ng |= neg_of(x)
+            return Abs({"float"} if "float" in ks and ks <= {"float"} else ({"int"} if "float" not in ks else {"float"}), deps, sign=sg, neg=ng) if src else Conc(0)
         if fname in ("any", "all") and not shadow:
             a = args[0] if args else Abs({"obj"})
             self.E("reduce1", n, ast.unparse(n)[:90], bool(a.deps) and isinstance(n.args[0], (ast.List, ast.Tuple, ast.Set, ast.Name)), guards=g)
@@ -936,11 +1278,13 @@ class Interp:
             sg = sign_of(args[0]) if args else None
             if fname == "int" and sg == "pos":
                 sg = "nonneg"
-            return Abs({fname}, deps, sign=sg if fname in ("float", "int") else None)
+            return Abs({fname}, deps, sign=sg if fname in ("float", "int") else None, neg=neg_of(args[0]) if args and fname in ("float", "int") else frozenset())
         if fname == "len":
             return Abs({"int"}, deps)
         if fname == "round":
-            return Abs({"int"}, deps) if len(args) == 1 else Abs(kinds(args[0]), deps)
+            sg = sign_of(args[0]) if args else None
+            sg = "nonneg" if sg else None
+            return Abs({"int"}, deps, sign=sg, neg=neg_of(args[0]) if args else frozenset()) if len(args) == 1 else Abs(kinds(args[0]), deps, sign=sg, neg=neg_of(args[0]))
         if fname == "abs":
             return Abs({("int" if k == "bool" else k) for k in kinds(args[0])}, deps, sign="nonneg")
         if fname == "piecewise_polynomial":
@@ -964,7 +1308,17 @@ class Interp:
                     pass
             elif not isinstance(ic, Conc):
                 ks |= {"int"} if ic is not None and "int" in kinds(ic) else set()
-            return Abs(ks, deps)
+            sg = None
+            if all(k in a and isinstance(a[k], Conc) for k in need[1:]):
+                rmv = a.get("rates_multiplier")
+                try:
+                    if pw_nonneg(a["thresholds"].v, a["rates"].v, a["intercepts_at_lower_thresholds"].v, sign_of(a["x"]) is not None,
+                                 None if rmv is None or (isinstance(rmv, Conc) and rmv.v is None) else (sign_of(rmv) or "unknown")):
+                        sg = "nonneg"
+                except Exception as e:  # noqa: BLE001
+                    self.E("fold-exc", n, ast.unparse(n)[:80], type(e).__name__, guards=g)
+            ng = frozenset() if sg else frozenset({("schedule-can-be-negative", getattr(n, "lineno", 0), self.modstack[-1].rel, ast.unparse(n)[:100])}) if all(k in a and isinstance(a[k], Conc) for k in need[1:]) else frozenset()
+            return Abs(ks, deps, sign=sg, neg=ng)
         if fname in ("NotImplementedError", "ValueError", "KeyError", "TypeError"):
             return Abs({"exc"})
         vis = self.repo.helpers_visible_from(self.modstack[-1])
@@ -1085,7 +1439,8 @@ class Interp:
                         new[k] = j
                     else:
                         one = e1.get(k, e2.get(k))
-                        new[k] = Abs(kinds(one) | {"unbound"}, one.deps)
+                        # an unbound name is a NameError, not a value: the sign of the bound alternative stands
+                        new[k] = Abs(kinds(one) | {"unbound"}, one.deps, sign=sign_of(one), neg=neg_of(one))
                 env.clear()
                 env.update(new)
                 continue
@@ -1138,7 +1493,13 @@ class Interp:
 
     def run_function(self, fd, env, guards=()):
         rets = []
-        cont = self.block(fd.body, env, list(guards), rets)
+        self.gbase.append(len(guards))
+        self.defstack.append(single_defs(fd))
+        try:
+            cont = self.block(fd.body, env, list(guards), rets)
+        finally:
+            self.gbase.pop()
+            self.defstack.pop()
         if cont:
             rets.append((Conc(None), tuple(guards), fd.lineno))
         r = None
@@ -1147,12 +1508,46 @@ class Interp:
         return (r if r is not None else Abs({"never"})), rets
 
 
+def single_defs(fd):
+    """locals of `fd` that are assigned exactly once, by a plain `name = expr`, from names that are never
+    reassigned themselves: re-evaluating `expr` at a later use gives the same value, so it may be
+    re-evaluated under the path guards of that use (`d = a - b; if a > b: out = d`)."""
+    counts, exprs = {}, {}
+    for n in ast.walk(fd):
+        tgts = []
+        if isinstance(n, ast.Assign):
+            for t in n.targets:
+                tgts += [x.id for x in ast.walk(t) if isinstance(x, ast.Name)]
+            if len(n.targets) == 1 and isinstance(n.targets[0], ast.Name):
+                exprs[n.targets[0].id] = n.value
+        elif isinstance(n, (ast.AugAssign, ast.AnnAssign)):
+            tgts += [x.id for x in ast.walk(n.target) if isinstance(x, ast.Name)]
+            tgts += tgts  # never single
+        elif isinstance(n, (ast.For, ast.comprehension)):
+            tgts += [x.id for x in ast.walk(n.target) if isinstance(x, ast.Name)] * 2
+        elif isinstance(n, ast.NamedExpr):
+            tgts += [n.target.id] * 2
+        for t in tgts:
+            counts[t] = counts.get(t, 0) + 1
+    params = {a.arg for a in fd.args.posonlyargs + fd.args.args + fd.args.kwonlyargs}
+    stable = {k for k in params if counts.get(k, 0) == 0} | {k for k, c in counts.items() if c == 1 and k in exprs and k not in params}
+    out = {}
+    for k in stable - params:
+        e = exprs[k]
+        names = {x.id for x in ast.walk(e) if isinstance(x, ast.Name) and isinstance(x.ctx, ast.Load)}
+        if any(isinstance(x, (ast.Lambda, ast.Yield, ast.Await, ast.NamedExpr)) for x in ast.walk(e)):
+            continue
+        if all((nm in stable) or (nm not in counts and nm not in params) for nm in names):
+            out[k] = e
+    return out
+
+
 def _with_ctrl(v, ctrl):
     """merged value after a data-dependent branch: remember the test's arguments as
     control dependence (kept separate from value deps through the 'ctrl:' prefix)"""
     extra = frozenset("ctrl:" + d if not d.startswith("ctrl:") else d for d in ctrl)
     if isinstance(v, Abs):
-        return Abs(v.k, v.deps | extra, sym=None, cap=None, sign=v.sign)
+        return Abs(v.k, v.deps | extra, sym=None, cap=None, sign=v.sign, neg=v.neg, lb=v.lb, ub=v.ub)
     if isinstance(v, OneOf):
         return OneOf(v.vals, v.deps | extra)
     return v
